@@ -1707,16 +1707,18 @@ func (this *Reader) processBlock() (int64, error) {
 				continue
 			}
 
+			// Do not account for the bytes of a block that failed to decode:
+			// they must never be handed to the caller
+			if r.err != nil {
+				return decoded, r.err
+			}
+
 			if r.decoded > this.blockSize {
 				errMsg := fmt.Sprintf("Block %d incorrectly decompressed", r.blockID)
 				return decoded, &IOError{msg: errMsg, code: kanzi.ERR_PROCESS_BLOCK}
 			}
 
 			decoded += int64(r.decoded)
-
-			if r.err != nil {
-				return decoded, r.err
-			}
 
 			copy(this.buffers[n].Buf, r.data[0:r.decoded])
 			n++
